@@ -95,9 +95,46 @@ func C11URIMoves(what string, buf []byte, f sipsp.PField, moves []int) (res stri
 		}
 		return ""
 	}
+	// 0. a span that is too short, at the very place the URI already is ("nothing to move")
+	if len(txt) > 5 {
+		pos = 0
+		if d := step(0, len(txt)-1-int(f.Offs)%2); d != "" {
+			return d
+		}
+		pos = int(f.Offs)
+	}
+	// the list comparison helpers parse both operands from a caller-given offset: the answer for
+	// the same two texts cannot depend on where each of them starts
+	type eqf func([]byte, int, []byte, int) (bool, sipsp.ErrorHdr)
+	for _, c := range []struct {
+		n  string
+		f  sipsp.PField
+		eq eqf
+	}{{"URIParamsEq", u.Params, sipsp.URIParamsEq}, {"URIHdrsEq", u.Headers, sipsp.URIHdrsEq}} {
+		if c.f.Len == 0 || int(c.f.Offs)+int(c.f.Len) > len(txt) {
+			continue
+		}
+		o, e := int(c.f.Offs), int(c.f.Offs)+int(c.f.Len)
+		alone := append([]byte(nil), txt[o:e]...)
+		inPlace := txt[:e]
+		shifted := append(append([]byte(nil), "#;?&=x"[:1+o%6]...), alone...)
+		k := len(shifted) - len(alone)
+		r0, e0 := c.eq(alone, 0, alone, 0)
+		for i, v := range [][4]interface{}{{inPlace, o, alone, 0}, {alone, 0, inPlace, o}, {inPlace, o, shifted, k}, {shifted, k, inPlace, o}} {
+			r, er := c.eq(v[0].([]byte), v[1].(int), v[2].([]byte), v[3].(int))
+			if r != r0 || er != e0 {
+				return fmt.Sprintf("%s URI %q: %s of %q with itself = (%v,%d) at offsets 0/0 but (%v,%d) at offsets %d/%d (variant %d)", what, txt, c.n, alone, r0, e0, r, er, v[1].(int), v[3].(int), i)
+			}
+		}
+	}
 	// 1. from its own sub-slice to where it sits in the receive buffer (exact span)
 	if d := step(int(f.Offs), len(txt)); d != "" {
 		return d
+	}
+	if len(txt) > 5 {
+		if d := step(int(f.Offs), len(txt)-1-int(f.Offs/2)%2); d != "" {
+			return d
+		}
 	}
 	if v, ok := viewOf(&u, buf); !ok || !v.eq(orig) {
 		return fmt.Sprintf("%s URI %q relocated to its place %d in the receive buffer denotes other bytes", what, txt, f.Offs)
